@@ -25,6 +25,12 @@ func New(r bufio.Reader) LexerReader {
 		}
 	}
 
+	// a missing newline at the end of the file must not change the analysis of
+	// the last statement
+	if len(runes) > 0 && runes[len(runes)-1] != '\n' {
+		runes = append(runes, '\n')
+	}
+
 	return LexerReader{
 		runes:    runes,
 		pos:      0,
